@@ -399,6 +399,35 @@ def fft_arms(an, prog):
     return out, b
 
 
+def dn_width_table_rule(ctx, prog, an, rid):
+    """DataNumber::parse: (width, signedness) -> big-endian primitive of that width and the like-named variant,
+    without a narrowing cast; other widths rejected (shared: C04 R4.6, C05 R5.9)."""
+    dnb = prog.body(DN_PARSE)
+    if ctx.anchor(rid, DN_PARSE, dnb):
+        n = 0
+        for (L, sg), (w, var) in sorted(EXPECTED_DN.items()):
+            r = dn_arm(an, prog, dnb, L, sg)
+            n += 1
+            if r is None:
+                ctx.ob(rid, DN_PARSE, "arm:(%d,%s)" % (L, sg), False, "no primitive/variant reached for (%d,%s)" % (L, sg))
+                continue
+            pw, pv, narrowing, endian = r
+            ok = pw == L and endian == "be" and pv is not None and (PAYLOAD_BITS.get(pv, 0) >= 8 * L or sg) and pv == var
+            ctx.ob(rid, DN_PARSE, "arm:(%d,%s)" % (L, sg), ok, "(%d,%s) reads a %s-byte %s-endian primitive and builds DataNumber::%s (expected width %d, %s)" % (L, sg, pw, endian, pv, w, var))
+            ctx.ob(rid, DN_PARSE, "no-narrowing:(%d,%s)" % (L, sg), not narrowing,
+                   "payload is %s" % ("narrowed by an `as` cast: the decoded value is not the big-endian interpretation of the %d bytes" % L if narrowing else "stored without narrowing"))
+        for L in (0, 5, 6, 7, 9, 15, 17, 65535):
+            for sg in (False, True):
+                r = dn_arm(an, prog, dnb, L, sg)
+                ok = r is None
+                if r is not None and L in (5, 6, 7):
+                    # a reduced-size encoding (RFC 7011 6.2) may be supported, provided it is decoded like the others
+                    pw, pv, narrowing, endian = r
+                    ok = pw == L and endian == "be" and pv is not None and PAYLOAD_BITS.get(pv, 0) >= 8 * L and not narrowing
+                ctx.ob(rid, DN_PARSE, "unsupported:(%d,%s)" % (L, sg), ok, "length %d %s" % (L, "is rejected" if r is None else "decodes with %s" % (r,)))
+        ctx.floor(rid, DN_PARSE, "width-table arms", n, 12)
+
+
 def run(ctx, env):
     prog = env.prog("default")
     an = An(prog)
@@ -508,25 +537,7 @@ def run(ctx, env):
             and bool(find(ret[3][1], lambda n: n[0] == "field" and n[2] == "field_type"))
         ctx.ob("R4.5", tf.path, "decodes-with-own-type-and-length", ok, canon(ret)[:240])
     # R4.6
-    dnb = prog.body(DN_PARSE)
-    if ctx.anchor("R4.6", DN_PARSE, dnb):
-        n = 0
-        for (L, sg), (w, var) in sorted(EXPECTED_DN.items()):
-            r = dn_arm(an, prog, dnb, L, sg)
-            n += 1
-            if r is None:
-                ctx.ob("R4.6", DN_PARSE, "arm:(%d,%s)" % (L, sg), False, "no primitive/variant reached for (%d,%s)" % (L, sg))
-                continue
-            pw, pv, narrowing, endian = r
-            ok = pw == L and endian == "be" and pv is not None and (PAYLOAD_BITS.get(pv, 0) >= 8 * L or sg) and pv == var
-            ctx.ob("R4.6", DN_PARSE, "arm:(%d,%s)" % (L, sg), ok, "(%d,%s) reads a %s-byte %s-endian primitive and builds DataNumber::%s (expected width %d, %s)" % (L, sg, pw, endian, pv, w, var))
-            ctx.ob("R4.6", DN_PARSE, "no-narrowing:(%d,%s)" % (L, sg), not narrowing,
-                   "payload is %s" % ("narrowed by an `as` cast: the decoded value is not the big-endian interpretation of the %d bytes" % L if narrowing else "stored without narrowing"))
-        for L in (0, 5, 6, 7, 9, 15, 17, 65535):
-            for sg in (False, True):
-                r = dn_arm(an, prog, dnb, L, sg)
-                ctx.ob("R4.6", DN_PARSE, "unsupported:(%d,%s)" % (L, sg), r is None, "length %d %s" % (L, "is rejected" if r is None else "decodes with %s" % (r,)))
-        ctx.floor("R4.6", DN_PARSE, "width-table arms", n, 12)
+    dn_width_table_rule(ctx, prog, an, "R4.6")
     arms, fftb = fft_arms(an, prog)
     if ctx.anchor("R4.6", FFT, fftb):
         flen = canon(("arg", 3))
